@@ -350,6 +350,9 @@ func vtGenRecheck(after string) {
 	vt.CheckFrozen()
 }
 `)
+	if prop == "C11" {
+		return renderModelRaceHarness(pkg, is, triples)
+	}
 	for _, tr := range triples {
 		name := fmt.Sprintf("VT_%s_Model_%s", prop, tr.write)
 		tname := is.ts(tr.t.Elem())
@@ -395,6 +398,50 @@ func vtGenRecheck(after string) {
 	}
 	var hdr strings.Builder
 	hdr.WriteString("//go:build verif\n\n// Code generated by symgo from the current tree's type information. DO NOT EDIT.\n\npackage " + pkg.Name() + "\n\nimport (\n\t\"context\"\n\n\t\"google.golang.org/protobuf/proto\"\n\t\"google.golang.org/protobuf/types/known/fieldmaskpb\"\n\n\t\"" + modPath + "/internal/vt\"\n\t\"" + modPath + "/pkg/resource\"\n")
+	var paths []string
+	for p := range is.byPath {
+		paths = append(paths, p)
+	}
+	sort.Strings(paths)
+	for _, p := range paths {
+		hdr.WriteString(fmt.Sprintf("\t%s %q\n", is.byPath[p], p))
+	}
+	hdr.WriteString(")\n\nvar _ = context.Background\nvar _ resource.ReadOption\n")
+	return hdr.String() + body.String()
+}
+
+// renderModelRaceHarness: per triple, a writer, a reader (plain and masked, touching every field by cloning) and a
+// subscriber run concurrently on one model; the engine's race monitor watches every heap cell they touch.
+func renderModelRaceHarness(pkg *types.Package, is *importSet, triples []modelTriple) string {
+	var body strings.Builder
+	w := func(f string, a ...any) { fmt.Fprintf(&body, f, a...) }
+	for _, tr := range triples {
+		tname := is.ts(tr.t.Elem())
+		read := func(opts string) string {
+			if tr.readErr {
+				return fmt.Sprintf("func() *%s { r, _ := m.%s(%s); return r }()", tname, tr.read, opts)
+			}
+			return fmt.Sprintf("m.%s(%s)", tr.read, opts)
+		}
+		w("\n// %s / %s / %s with a subscriber attached, a writer and a reader (plain and masked) run concurrently.\nfunc VT_C11_Model_%s() {\n", tr.write, tr.read, tr.pull, tr.write)
+		w("\tm := NewModel()\n\tif _, err := m.%s(%s); err != nil {\n\t\tvt.Reach(\"model-rejects-the-generated-message\")\n\t\treturn\n\t}\n", tr.write, msgLiteral(is, tr.t, 1, 1))
+		if tr.pull != "" {
+			// subscribed (and seeded) before the concurrent part starts: fewer interleavings, same accesses
+			w("\tctx, cancel := context.WithCancel(context.Background())\n\tdefer cancel()\n\tch := m.%s(ctx)\n", tr.pull)
+			w("\tif e, ok := <-ch; ok && e.%s != nil {\n\t\t_ = proto.Clone(e.%s)\n\t}\n", tr.field, tr.field)
+		}
+		w("\tvar wg sync.WaitGroup\n\twg.Add(2)\n")
+		w("\tgo func() {\n\t\tdefer wg.Done()\n\t\tm.%s(%s)\n\t}()\n", tr.write, msgLiteral(is, tr.t, 2, 1))
+		w("\tgo func() {\n\t\tdefer wg.Done()\n\t\tif r := %s; r != nil {\n\t\t\t_ = proto.Clone(r)\n\t\t}\n", read(""))
+		w("\t\tif r := %s; r != nil {\n\t\t\t_ = proto.Clone(r)\n\t\t}\n\t}()\n", read("resource.WithReadMask(&fieldmaskpb.FieldMask{})"))
+		w("\twg.Wait()\n")
+		if tr.pull != "" {
+			w("\tvt.Settle()\n\tselect {\n\tcase e, ok := <-ch:\n\t\tif ok && e.%s != nil {\n\t\t\t_ = proto.Clone(e.%s)\n\t\t}\n\tdefault:\n\t}\n", tr.field, tr.field)
+		}
+		w("\tvt.Reach(\"done\")\n}\n")
+	}
+	var hdr strings.Builder
+	hdr.WriteString("//go:build verif\n\n// Code generated by symgo from the current tree's type information. DO NOT EDIT.\n\npackage " + pkg.Name() + "\n\nimport (\n\t\"context\"\n\t\"sync\"\n\n\t\"google.golang.org/protobuf/proto\"\n\t\"google.golang.org/protobuf/types/known/fieldmaskpb\"\n\n\t\"" + modPath + "/internal/vt\"\n\t\"" + modPath + "/pkg/resource\"\n")
 	var paths []string
 	for p := range is.byPath {
 		paths = append(paths, p)
